@@ -2,8 +2,8 @@ CONSTANTS
   Files = {"f1", "f2"}
   Tables <- TablesDef
   NoFile = "nofile"
-  Rich = FALSE
-  MaxOps = 4
+  Rich = TRUE
+  MaxOps = 3
   Deviation = "none"
 SPECIFICATION Spec
 INVARIANT TypeOK
